@@ -1568,7 +1568,8 @@ def _t_eval(target, _t, scope):
     pae = None
     while i < fetch_till:
         op, arg = t_path[i], t_path[i + 1]
-        arg = arg_val(target, arg, scope)
+        if op != '(':  # call arguments are evaluated (once) by the Call spec below
+            arg = arg_val(target, arg, scope)
         if op == '.':
             try:
                 cur = getattr(cur, arg)
